@@ -149,7 +149,7 @@ pub fn base_yaml(bits: u32, servers: u8) -> String {
     if on(F_PATHS) {
         // One path that no program has and one that collides with a program path.
         s.push_str(
-            "paths:\n  x-base-route-table:\n    hidden:\n    - /internal\n  /base/only/{id}:\n    parameters:\n    - name: id\n      in: path\n      required: true\n      schema:\n        type: string\n    get:\n      operationId: get-objs\n      responses:\n        '200':\n          description: ok\n  /objs:\n    delete:\n      operationId: get-tree\n      responses:\n        '204':\n          description: gone\n",
+            "paths:\n  x-base-route-table:\n    hidden:\n    - /internal\n  /base/only/{id}:\n    parameters:\n    - name: id\n      in: path\n      required: true\n      schema:\n        type: string\n    get:\n      operationId: get-objs\n      responses:\n        '200':\n          description: ok\n  /objs:\n    x-path-level: kept-nowhere\n    get:\n      x-gateway-integration:\n        type: lambda\n      summary: the base's own get\n      responses:\n        '200':\n          description: base\n    delete:\n      operationId: get-tree\n      responses:\n        '204':\n          description: gone\n",
         );
     } else {
         s.push_str("paths: {}\n");
